@@ -469,6 +469,15 @@ class Interp:
             raise Unsupported("arithmetic on symbolic sizes")
         if isinstance(op, ast.MatMult):
             return self.matmul(a, b)
+        if isinstance(a, (set, frozenset)) and isinstance(b, (set, frozenset)):
+            if isinstance(op, ast.Sub):
+                return a - b
+            if isinstance(op, ast.BitOr):
+                return a | b
+            if isinstance(op, ast.BitAnd):
+                return a & b
+            if isinstance(op, ast.BitXor):
+                return a ^ b
         if isinstance(a, EmptyArr) or isinstance(b, EmptyArr):
             return EmptyArr()
         if isinstance(a, Cols) or isinstance(b, Cols):
@@ -643,6 +652,9 @@ class Interp:
 
     def e_List(self, node, fr):
         return [self.eval(e, fr) for e in node.elts]
+
+    def e_Set(self, node, fr):
+        return set(self.eval(e, fr) for e in node.elts)
 
     def e_Dict(self, node, fr):
         return {self.eval(k, fr): self.eval(v, fr) for k, v in zip(node.keys, node.values)}
@@ -1073,7 +1085,7 @@ class Interp:
             if name == "values":
                 return list(recv.values())
             if name == "keys":
-                return list(recv.keys())
+                return set(recv.keys())
             if name == "copy":
                 return dict(recv)
             if name == "update":
@@ -1446,6 +1458,8 @@ class Interp:
 
     def s_For(self, s, fr):
         it = self.eval(s.iter, fr)
+        if isinstance(it, (set, frozenset)):
+            it = sorted(it, key=repr)
         if not isinstance(it, (list, tuple)):
             raise Unsupported(f"for loop over {it!r}")
         broke = False
@@ -1476,6 +1490,8 @@ class Interp:
                 return
             g = node.generators[i]
             it = self.eval(g.iter, frame)
+            if isinstance(it, (set, frozenset)):
+                it = sorted(it, key=repr)
             if not isinstance(it, (list, tuple)):
                 raise Unsupported(f"comprehension over {it!r}")
             for v in it:
